@@ -179,7 +179,11 @@ func genPit(g *common.Gen, r *common.Rand) {
 			g.Op("adv %d", common.Pick(r, []int{1, 10, 50, 99, 100, 101, 300, 600, 2000}))
 			g.Stat("adv")
 		default:
-			g.Op("cap %d", r.Range(0, 4))
+			k := r.Range(0, 6)
+			if r.Chance(1, 3) {
+				k = capK // back to exactly the start-up capacity
+			}
+			g.Op("cap %d", k)
 			g.Stat("cap")
 		}
 	}
